@@ -94,6 +94,10 @@ func constValue(c *ssa.Const) Value {
 }
 
 func (m *Machine) rtPanic(msg string) {
+	// where the runtime fault arises (for the violation note only; the panic value is Go's)
+	if m.curInstr != nil && m.curFn != nil {
+		m.faultPos = fmt.Sprintf("%s at %s", m.curFn.String(), m.eng.prog.Fset.Position(m.curInstr.Pos()))
+	}
 	rt := m.eng.prog.ImportedPackage("runtime")
 	var T types.Type
 	if rt != nil {
@@ -157,6 +161,10 @@ const (
 
 func (m *Machine) visitInstr(fr *frame, instr ssa.Instruction) continuation {
 	m.steps++
+	if m.steps&4095 == 0 && m.eng.budgetHit && m.inInit == 0 {
+		// the wall-clock budget also ends the path being executed
+		panic(pathAbort{"budget", "wall-clock budget exhausted"})
+	}
 	if m.eng.cfg.StepLimit > 0 && m.steps > m.eng.cfg.StepLimit {
 		panic(pathAbort{"unwind", "step limit exceeded"})
 	}
@@ -570,6 +578,7 @@ func (m *Machine) runFrame(fr *frame) {
 				}
 				break
 			}
+			m.curInstr, m.curFn = instr, fr.fn
 			c := m.visitInstr(fr, instr)
 			if c == kReturn {
 				return
@@ -749,7 +758,7 @@ func (m *Machine) runInit(pkg *ssa.Package) {
 
 // packages whose initialiser is not run at all (their globals stay zero)
 var skipInit = map[string]bool{
-	"runtime": true, "os": true, "syscall": true, "net": true, "net/http": true, "crypto/tls": true,
+	"runtime": true, "os": true, "syscall": true, "net": true, "crypto/tls": true,
 	"reflect": true, "internal/poll": true, "internal/godebug": true, "log": true,
 	"go.uber.org/zap": true, "go.uber.org/zap/zapcore": true, "expvar": true,
 	"encoding/json": true, "github.com/json-iterator/go": true, "mime": true, "html": true,
